@@ -21,9 +21,8 @@ import (
 	mockaccountmanager "github.com/attestantio/vouch/services/accountmanager/mock"
 	mockattestationaggregator "github.com/attestantio/vouch/services/attestationaggregator/mock"
 	"github.com/attestantio/vouch/services/attester"
-	"github.com/attestantio/vouch/services/beaconblockproposer"
-	"github.com/attestantio/vouch/util"
 	standardattester "github.com/attestantio/vouch/services/attester/standard"
+	"github.com/attestantio/vouch/services/beaconblockproposer"
 	mockbeaconcommitteesubscriber "github.com/attestantio/vouch/services/beaconcommitteesubscriber/mock"
 	"github.com/attestantio/vouch/services/cache"
 	mockcache "github.com/attestantio/vouch/services/cache/mock"
@@ -35,6 +34,7 @@ import (
 	standardsyncaggregator "github.com/attestantio/vouch/services/synccommitteeaggregator/standard"
 	"github.com/attestantio/vouch/services/synccommitteemessenger"
 	standardsyncmessenger "github.com/attestantio/vouch/services/synccommitteemessenger/standard"
+	"github.com/attestantio/vouch/util"
 	"github.com/attestantio/vouch/verifmc/mc"
 	"github.com/attestantio/vouch/verifmc/mcontext"
 	"github.com/prysmaticlabs/go-bitfield"
@@ -49,25 +49,27 @@ import (
 //	        exactly while the attestation job of s exists
 //	attested the real attester over every 6-epoch pattern of {attests, fails, no duty}: remembered epochs
 //	        stay within a fixed window
-//	sync    the real sync committee messenger + aggregator over 12 slots, selected as aggregator always /
-//	        never / alternating: retained head roots stay within a fixed window
+//	sync    the real sync committee messenger + aggregator over 8/12 slots, in each of which the validator is
+//	        a selected aggregator, is not, or the beacon node gives no head root: retained head roots stay
+//	        within a fixed window
 //	leak    strategies `first` (7 of them) with three nodes, unblinding with three relays, the deadline
 //	        auction: no goroutine started by vouch is left blocked
 
 // ---- ctrl ---------------------------------------------------------------------------------------
 
 type c20Ctrl struct {
-	w       *c03World
-	fail    string
-	key     string
-	obs     int
-	stale   int
-	reorgs  int
-	pending int
+	w            *c03World
+	fail         string
+	key          string
+	obs          int
+	stale        int
+	reorgs       int
+	pending      int
+	inflightSeen int
 }
 
-func c20CtrlBody(st *c20Ctrl, startAt int64, ap [2]string, epochs int) {
-	*st = c20Ctrl{w: &c03World{attKinds: ap, propKinds: [2]string{"A", "C"}, startAt: startAt, reorgAt: -1}}
+func c20CtrlBody(st *c20Ctrl, startAt int64, ap [2]string, epochs int, attestDur int64) {
+	*st = c20Ctrl{w: &c03World{attKinds: ap, propKinds: [2]string{"A", "C"}, startAt: startAt, reorgAt: -1, attestDur: attestDur}}
 	w := st.w
 	ctx, cancel := mcontext.WithCancel(context.Background())
 	defer cancel()
@@ -127,12 +129,19 @@ func c20CtrlBody(st *c20Ctrl, startAt int64, ap [2]string, epochs int) {
 			if p {
 				st.pending++
 			}
-			if p && !hasJob[s] {
+			if p && !hasJob[s] && w.inflight[s] == 0 {
 				st.stale++
 				bad("pending-mark-without-job", "%s: slot %d is reported as having pending attestations but no attestation job for it exists or is running (current slot %d)", when, s, cur)
 			}
 			if !p && hasJob[s] {
 				bad("job-without-pending-mark", "%s: an attestation job for slot %d exists but the slot is not reported as pending", when, s)
+			}
+			if !p && w.inflight[s] > 0 {
+				st.inflightSeen++
+				bad("inflight-without-pending-mark", "%s: the attestations of slot %d are being carried out but the slot is not reported as pending (a shutdown would not wait for them)", when, s)
+			}
+			if p && w.inflight[s] > 0 {
+				st.inflightSeen++
 			}
 		}
 		if n := ctrl.VerifC20PendingAttestationEntries(); n > 3*c03SPE {
@@ -274,6 +283,7 @@ func c20AttestedBody(st *c20AttState, first int, epochs int) {
 // ---- sync ----------------------------------------------------------------------------------------
 
 type c20SyncEnv struct {
+	failRoot bool // the beacon node does not answer the head root request of this slot
 	selected bool
 	sigSel   phase0.BLSSignature
 	sigNot   phase0.BLSSignature
@@ -324,6 +334,9 @@ func (e *c20SyncEnv) SignContributionAndProofs(_ context.Context, accounts []e2w
 	return make([]phase0.BLSSignature, len(accounts)), nil
 }
 func (e *c20SyncEnv) BeaconBlockRoot(_ context.Context, _ *api.BeaconBlockRootOpts) (*api.Response[*phase0.Root], error) {
+	if e.failRoot {
+		return nil, errors.New("no head root")
+	}
 	r := root(7)
 	return &api.Response[*phase0.Root]{Data: &r, Metadata: map[string]any{}}, nil
 }
@@ -367,10 +380,11 @@ func c20SyncBody(st *c20SyncState, first int, slots int) {
 	for s := 0; s < slots; s++ {
 		sel := first
 		if s > 0 {
-			sel = mc.Choose(2)
+			sel = mc.Choose(3)
 		}
 		env.selected = sel == 1
-		st.pattern = append(st.pattern, []string{"not-selected", "selected"}[sel])
+		env.failRoot = sel == 2
+		st.pattern = append(st.pattern, []string{"not-selected", "selected", "no-head-root"}[sel])
 		slot := phase0.Slot(10 + s)
 		mc.Sleep(int64(time.Duration(slot)*12*time.Second) - mc.Now())
 		// what the controller does for a slot: prepare, message, and aggregate if a validator is selected
@@ -379,11 +393,14 @@ func c20SyncBody(st *c20SyncState, first int, slots int) {
 		if err := msgr.Prepare(ctx, duty); err != nil {
 			panic(err)
 		}
-		if _, err := msgr.Message(ctx, duty); err != nil {
+		if _, err := msgr.Message(ctx, duty); err != nil && !env.failRoot {
 			panic(err)
 		}
 		subs := duty.AggregatorSubcommittees(1)
-		if (len(subs) > 0) != env.selected {
+		if env.failRoot {
+			subs = nil
+		}
+		if (len(subs) > 0) != env.selected && !env.failRoot {
 			panic("harness: selection signatures do not steer the aggregator selection")
 		}
 		if len(subs) > 0 {
@@ -393,8 +410,15 @@ func c20SyncBody(st *c20SyncState, first int, slots int) {
 		if len(roots) > st.maxRoot {
 			st.maxRoot = len(roots)
 		}
+		// Roots are tidied when a new one is recorded, so after a slot without a head root older ones may
+		// linger (they cannot accumulate: nothing is added); what must hold is that a slot which records a
+		// root leaves nothing outside the window, and that the number retained stays small throughout.
+		if len(roots) > 4 && st.fail == "" {
+			st.fail = fmt.Sprintf("in slot %d the head roots of %d slots are retained for sync aggregation (%s)", slot, len(roots), strings.Join(st.pattern, " "))
+			st.key = "sync-head-roots-accumulate"
+		}
 		for _, k := range roots {
-			if k+3 < slot && st.fail == "" {
+			if k+3 < slot && !env.failRoot && st.fail == "" {
 				st.fail = fmt.Sprintf("in slot %d the head root of slot %d is still retained for sync aggregation (%s)", slot, k, strings.Join(st.pattern, " "))
 				st.key = "sync-head-root-never-forgotten"
 			}
@@ -409,17 +433,23 @@ func c20Units(tier string) []hx.Unit {
 	// ctrl
 	starts := []int64{0, int64(c03SlotDur) + int64(time.Second)}
 	for si, sa := range starts {
-		for _, ap := range [][2]string{{"E", "E"}, {"A", "A"}, {"E", "C"}, {"A", "C"}, {"E", "B"}, {"A", "B"}} {
-			sa, ap := sa, ap
+		for _, apd := range [][3]string{{"E", "E", ""}, {"A", "A", ""}, {"E", "C", ""}, {"A", "C", ""}, {"E", "B", ""}, {"A", "B", ""}, {"A", "A", "slow"}, {"A", "C", "slow"}, {"A", "B", "slow"}, {"B", "A", "slow"}, {"C", "A", "slow"}} {
+			sa, ap := sa, [2]string{apd[0], apd[1]}
+			// a slow attester (the job is fast-tracked by the head event one second into its slot) is still at
+			// work when the next slot's head event arrives and at the observation after it
+			var dur int64
+			if apd[2] == "slow" {
+				dur = int64(14 * time.Second)
+			}
 			st := &c20Ctrl{}
 			epochs := 4
 			if tier == "thorough" {
 				epochs = 6
 			}
-			u := hx.Unit{Name: fmt.Sprintf("C20/ctrl/start%d/att%s%s", si, ap[0], ap[1]), Cfg: mc.Config{Deviation: true, Horizon: int64(60 * c03SlotDur)}, Bound: 0}
-			u.Body = func() { c20CtrlBody(st, sa, ap, epochs) }
+			u := hx.Unit{Name: fmt.Sprintf("C20/ctrl/start%d/att%s%s%s", si, ap[0], ap[1], apd[2]), Cfg: mc.Config{Deviation: true, Horizon: int64(60 * c03SlotDur)}, Bound: 0}
+			u.Body = func() { c20CtrlBody(st, sa, ap, epochs, dur) }
 			u.Check = func(r *mc.Result) mc.Verdict {
-				v := mc.Verdict{Outcome: fmt.Sprintf("ctrl reorgs=%d attests=%d", st.reorgs, len(st.w.attests)), Nontrivial: st.reorgs > 0 || st.pending > 0}
+				v := mc.Verdict{Outcome: fmt.Sprintf("ctrl reorgs=%d attests=%d inflight-observed=%v", st.reorgs, len(st.w.attests), st.inflightSeen > 0), Nontrivial: st.reorgs > 0 || st.pending > 0}
 				v.Sample = fmt.Sprintf("controller run start=+%.0fs duties %s->%s events [%s]: %d observations, %d pending marks seen", float64(sa)/1e9, ap[0], ap[1], strings.Join(st.w.events, " "), st.obs, st.pending)
 				switch {
 				case r.Panic != "":
@@ -456,7 +486,7 @@ func c20Units(tier string) []hx.Unit {
 		units = append(units, u)
 	}
 	// sync
-	for first := 0; first < 2; first++ {
+	for first := 0; first < 3; first++ {
 		first := first
 		st := &c20SyncState{}
 		slots := 8
@@ -636,8 +666,8 @@ func init() {
 	hx.Register(&hx.Prop{
 		ID:    "C20",
 		Title: "Vouch's memory and goroutines stay bounded, and shutdown accounting is exact",
-		Rule: "ctrl: the real controller + scheduler run for 4 (thorough 6) epochs from 2 start instants with 6 attester duty-table pairs (dense / sparse, reorg that drops or moves duties) x position and kind of the reorg event, a head event every slot; at +2 s and at the end of every slot: job names, pending-attestation marks (exactly the slots with an attestation job), subscription-information epochs inside a fixed window; " +
-			"attested: the real attester over every 6-epoch (thorough 8) pattern of {attests, data fetch fails, no duty}; sync: the real sync messenger + aggregator over every 8-slot (thorough 12) pattern of {selected, not selected} as aggregator; retained keys must lie in a fixed window; " +
+		Rule: "ctrl: the real controller + scheduler run for 4 (thorough 6) epochs from 2 start instants with 6 attester duty-table pairs (dense / sparse, reorg that drops or moves duties) and an attester that returns at once, plus 5 pairs with an attester that takes 14 s (still at work at the next slot's head event), x position and kind of the reorg event, a head event every slot; at +2 s and at the end of every slot: job names, pending-attestation marks (exactly the slots with an attestation job listed or attestations in flight), subscription-information epochs inside a fixed window; " +
+			"attested: the real attester over every 6-epoch (thorough 8) pattern of {attests, data fetch fails, no duty}; sync: the real sync messenger + aggregator over every 8-slot (thorough 12) pattern of {selected as aggregator, not selected, beacon node gives no head root}; a slot that records a root leaves no root outside the window and at most 4 are ever retained; " +
 			"leak: each `first` / best / majority strategy with three nodes x {answer at 0 s / 2 s, never, late} x {valid, error}, unblinding with three relays, the deadline auction with three relays; after all timeouts no goroutine started by vouch may be blocked; deviation-bounded schedules; " +
 			"non-trivial = a reorg happened / pending marks were observed / any attested, sync or leak case",
 		Assumptions: []string{
